@@ -49,7 +49,7 @@ PROPS = {
     },
     "C11": {
         "module": "ZenonVerif.Props.C11",
-        "streams": [S("rewards-pure", 4000, 200000)],
+        "streams": [S("rewards-pure", 20000, 300000)],
         "rule": "rewards-pure stream: the vm/constants reward lookups on every epoch 0..400, tick boundaries up to 2^64-1 and "
                 "random epochs; getWeightedStake / getWeightedLiquidityStake / getWeightedSentinel on entries starting or "
                 "revoked before, at the edges of, inside and after the epoch window (incl. the 90% sentinel threshold); "
